@@ -1,3 +1,5 @@
+#[cfg(trusttunnel_verif)]
+use crate::verif::tokio;
 use crate::net_utils;
 use async_trait::async_trait;
 use bytes::{Buf, BufMut, Bytes, BytesMut};
